@@ -351,6 +351,11 @@ def gen_plan(rng, tier):
         plan["cold_crosscheck"] = True
     if rng.random() < 0.1:
         plan["pyopt"] = 1  # environment: the library compiled as under `python -O`
+    g = rng.random()
+    if g < 0.1:
+        plan["gc"] = "disabled"      # environment: no cyclic garbage collection during the run
+    elif g < 0.2:
+        plan["gc"] = "every_op"      # ... or a full collection after every operation
     if rng.random() < 0.03:
         # "a fresh process" also means another string-hash seed: one reference of this run
         # is computed in a cold interpreter started with this PYTHONHASHSEED
@@ -461,6 +466,10 @@ def _do_export(tl, spec, fs, op):
 # ------------------------------------------------------------------ execution (child)
 
 def _run(plan):
+    import gc as _gc
+
+    if plan.get("gc") == "disabled":
+        _gc.disable()
     if plan.get("pyopt"):
         # the library as `python -O` compiles it (assert statements stripped)
         from ..util import reimport_labella
@@ -493,6 +502,8 @@ def _run(plan):
     events = []
     log = []
     for step, op in enumerate(plan["ops"]):
+        if plan.get("gc") == "every_op":
+            _gc.collect()
         kind = op[0]
         outcome = "ok"
         if kind == "clock_advance":
